@@ -201,6 +201,30 @@ End Generic.
 
 Inductive iend := EDrop | EForget | ELen (la : lenad).
 
+(** which calls an iterator type offers at all: [de] = it implements
+    DoubleEndedIterator, [es] = ExactSizeIterator.  [Rev] needs [de];
+    [Take<I>]/[Skip<I>]/[Zip]/[Peekable]/[Enumerate] are ExactSize only if
+    [I] is, [Rev<I>] only if [I] is both. *)
+Definition step_offered (de es : bool) (a : adaptor) (x : istep) : bool :=
+  match a, x with
+  | ASkip _, _ => false
+  | ATake _, INextBack _ _ => false
+  | _, INextBack _ _ => de
+  | _, ILen => es
+  | _, _ => true
+  end.
+Definition script_offered (de es : bool) (a : adaptor) (script : list istep) (e : iend) : bool :=
+  (match a with ARev => de | _ => true end) &&
+  forallb (step_offered de es a) script &&
+  (match e with
+   | ELen la =>
+       match a with
+       | ADirect => es && (match la with LRev => de | _ => true end)
+       | _ => false
+       end
+   | _ => true
+   end).
+
 End Iter.
 
 Arguments sout : clear implicits.
